@@ -61,7 +61,7 @@ def axesEntry (t : Tree) (p : Path) (entry : String) : Option String :=
   | "parent" => some (showOptPath (parent p))
   | "ancestors" => some (showPaths (ancestors p))
   | "children" => some (showPaths (children t p))
-  | "reverse_children" => some (showPaths (reverseChildren t p))
+  | "reverse_children" => some (showPaths (reverseChildren t (4 * t.size + 8) p))
   | "descendants" => some (showPaths (descendants t p))
   | "all_descendants" => some (showPaths (allDescendants t p))
   | "following_siblings" => some (showPaths (followingSiblings t p))
@@ -91,6 +91,19 @@ def axesEntry (t : Tree) (p : Path) (entry : String) : Option String :=
       (parseAxis (entry.drop 5).toString).map fun a => showPaths (axis t a p)
     else none
 
+/-- Entry points in the order of the harness's `all_entries()` (bundled request `axes all`). -/
+def allEntries : List String :=
+  ["first_child", "last_child", "next_sibling", "previous_sibling", "parent",
+   "ancestors", "children", "reverse_children", "descendants", "all_descendants", "following_siblings",
+   "preceding_siblings", "following", "all_following", "preceding", "reverse_preorder", "all_reverse_preorder",
+   "attribute_nodes",
+   "traverse", "all_traverse", "reverse_traverse", "reverse_all_traverse", "edge_walk_next", "edge_walk_prev",
+   "edge_next_start", "edge_next_end", "edge_prev_start", "edge_prev_end",
+   "level_order", "root", "top_element", "document_element",
+   "axis_child", "axis_descendant", "axis_parent", "axis_ancestor", "axis_following_sibling",
+   "axis_preceding_sibling", "axis_following", "axis_preceding", "axis_attribute", "axis_self",
+   "axis_descendant_or_self", "axis_ancestor_or_self"]
+
 def handleAxes : List String → Option String
   | "child_index" :: par :: child :: toks => do
       let par ← parsePath par
@@ -101,7 +114,10 @@ def handleAxes : List String → Option String
   | entry :: path :: toks => do
       let p ← parsePath path
       let (t, rest) ← parseTree toks
-      if !rest.isEmpty || (t.at? p).isNone then none else axesEntry t p entry
+      if !rest.isEmpty || (t.at? p).isNone then none
+      else if entry == "all" then
+        (allEntries.mapM (axesEntry t p)).map (String.intercalate " | ")
+      else axesEntry t p entry
   | _ => none
 
 end XotModel.Driver
